@@ -173,6 +173,9 @@ class C12(core.PropertyCheck):
         return "---\n".join(docs) + "...\n"
 
     def gen_asset(self, rng, path):
+        if path.endswith("facets.toml"):
+            # read by the postprocessor itself (propagate_facets), not by any page
+            return f'[[facets]]\ncategory = "genre"\nvalue = "{rng.choice(["tutorial", "reference"])}"\n'
         if path.endswith(".png"):
             return {"hex": PNG + "00" * rng.randint(0, 3)}
         return "\n".join(f"print({rng.randint(0, 99)})" for _ in range(rng.randint(1, 3))) + "\n"
@@ -220,6 +223,8 @@ class C12(core.PropertyCheck):
                 src["includes/extracts-c.yaml"] = None
         src["code/sample.py"] = None
         src["images/a.png"] = None
+        if kind != "corr" and rng.random() < 0.35:
+            src["facets.toml"] = None
         for p in list(src):
             src[p] = self.gen_text(rng, p, ctx)
         files = {"snooty.toml": toml}
